@@ -1,7 +1,7 @@
 \* simulation (code as it is) in which store_race also runs under a configuration with ANOTHER race id; used with -simulate only
 SPECIFICATION Spec
 CONSTANTS
-  Races <- RacesSim
+  Races <- RacesMis
   Dirs <- DirsT
   Envs <- EnvsSim
   FilterSet <- FiltersSim
